@@ -29,7 +29,7 @@ fn check_case(case: &Value) -> Option<Value> {
         dg,
         if lit["frac"].as_bool().unwrap() { ".5" } else { "" },
         lit["ws"].as_str().unwrap(),
-        lit["unit"].as_str().unwrap(),
+        lit["unit"].as_str().unwrap().replace('~', "\u{212a}").replace('^', "\u{17f}"),
         lit["trail"].as_str().unwrap()
     );
     let is_int = lit["form"] == "int";
